@@ -885,3 +885,88 @@ Section Ops.
     apply (prepare_then_store (exec ct XFUEL) XFUEL l a (snd r) e (pos0 hh) Hl).
   Qed.
 End Ops.
+
+(* ------------------------------------------------------------------ *)
+(** * Computable guards and the combined statement *)
+Definition is_none {A} (o : option A) : bool := match o with None => true | Some _ => false end.
+
+Definition leaf_list_b (sp : attr_spec) : bool :=
+  match a_ty sp with
+  | TList e => scalar_ty e && (ty_depth (a_ty sp) <? FUEL) && is_none (a_prepare sp) && is_none (a_prepare_item sp)
+  | _ => false
+  end.
+
+Lemma leaf_list_b_sound sp : leaf_list_b sp = true -> exists e, leaf_list sp e.
+Proof.
+  unfold leaf_list_b, leaf_list. destruct (a_ty sp) eqn:Et; try discriminate.
+  rewrite !andb_true_iff. intros [[[H1 H2] H3] H4]. exists t. split; auto. split; auto.
+  split; [unfold shallow; now apply Nat.ltb_lt|].
+  destruct (a_prepare sp), (a_prepare_item sp); simpl in *; try discriminate; auto.
+Qed.
+
+Definition no_inval_b (ct : ctable) : bool :=
+  forallb (fun k => forallb (fun sp => match a_inv_by sp with [] => true | _ => false end) (c_attrs k)) ct.
+
+Lemma no_inval_b_sound ct : no_inval_b ct = true -> no_inval_table ct.
+Proof.
+  unfold no_inval_b, no_inval_table. rewrite forallb_forall. intros H k sp Hk Hsp.
+  specialize (H _ Hk). rewrite forallb_forall in H. specialize (H _ Hsp).
+  destruct (a_inv_by sp); auto; discriminate.
+Qed.
+
+(* the receiver (a root value) is an instance whose attribute a, if managed, is a leaf list attribute *)
+Definition recv_leaf_b (ct : ctable) (h : heap_t) (recv : val) (a : aid) : bool :=
+  match recv with
+  | VRef l =>
+      match nth_error h l with
+      | Some (OInst cl d) =>
+          match lookup_cls ct cl with
+          | Some k => match lookup_attr k a with Some sp => leaf_list_b sp | None => true end
+          | None => true end
+      | _ => true end
+  | _ => true
+  end.
+
+Lemma recv_leaf_b_sound ct h recv a :
+  recv_leaf_b ct h recv a = true -> forall l, recv = VRef l -> recv_leaf ct l a h.
+Proof.
+  intros H l -> cl d k sp N Hk Ha. simpl in H. rewrite N, Hk, Ha in H. now apply leaf_list_b_sound.
+Qed.
+
+Definition norefs_b (o : obj) : bool :=
+  forallb (fun v => match v with VRef _ => false | _ => true end) (obj_vals o).
+
+Lemma norefs_b_sound o : norefs_b o = true -> norefs o.
+Proof.
+  unfold norefs_b, norefs. rewrite forallb_forall. intros H c I. specialize (H _ I). discriminate.
+Qed.
+
+(* the operations covered so far: assignment and with_<a>(v, _inplace=True) on leaf
+   list attributes with an argument nobody references (args_fresh), and the
+   caller building a container of scalars *)
+Definition owned_op_b (ct : ctable) (h : heap_t) (roots : list val) (o : op) : bool :=
+  match o with
+  | OpSetAttr x a v => loose_b h v && recv_leaf_b ct h (nth x roots VNone) a
+  | OpHelper x (HWith a) hh =>
+      h_inplace hh && is_none (h_kw hh) && loose_b h (pos0 hh) && recv_leaf_b ct h (nth x roots VNone) a
+  | OpAlloc ob => (shape ob <? 3) && norefs_b ob
+  | _ => false
+  end.
+
+Theorem step_preserves_owned_partial ct roots o s :
+  flat_table ct -> no_inval_b ct = true -> owned_op_b ct (heap s) roots o = true ->
+  TypeInv ct s -> Owned ct (heap s) ->
+  TypeInv ct (snd (step ct roots o s)) /\ Owned ct (heap (snd (step ct roots o s))).
+Proof.
+  intros Hf Hn Hop T O. apply no_inval_b_sound in Hn.
+  assert (I : Inv ct (heap s)) by (split; auto).
+  change (Inv ct (heap (snd (step ct roots o s)))).
+  destruct o as [| x a v | | x hp hh | | ob]; simpl in Hop; try discriminate.
+  - apply andb_true_iff in Hop. destruct Hop as [H1 H2].
+    apply step_setattr_Inv; auto; [now apply loose_b_iff|now apply recv_leaf_b_sound].
+  - destruct hp; try discriminate. rewrite !andb_true_iff in Hop. destruct Hop as [[[H1 H2] H3] H4].
+    apply step_with_inplace_Inv; auto; [now apply loose_b_iff| |now apply recv_leaf_b_sound].
+    destruct (h_kw hh); auto; discriminate.
+  - apply andb_true_iff in Hop. destruct Hop as [H1 H2]. simpl.
+    apply Inv_alloc; auto; [now apply Nat.ltb_lt|now apply norefs_b_sound].
+Qed.
